@@ -171,6 +171,7 @@ class Program:
         self.list_models = {}       # list object -> (loop id, iterated term, initial items, value appended per iteration)
         self.genobjs = {}           # site -> (call node, bound arguments) of generator objects created but not yet run
         self.closures = {}          # site -> nested function definition + defining scope
+        self.field_classes = {}     # (root class, field) -> class of the object the constructor leaves there
         self.funcrefs = {}          # key -> (class, definition, decorator level): what a decorator receives
         self.wrappers = {}          # key -> closure a user decorator returned for a definition
 
@@ -735,6 +736,23 @@ def norm_comp(c):
             return c
         kind, lid, it, key, val, conds = c[1:]
         el = ("elem", lid)
+        if it[0] == "res" and it[2] in (".items", ".keys", ".values") and len(it[3]) == 1 and not it[4] and \
+                it[3][0][0] == "comp" and it[3][0][1] == "dict" and not it[3][0][6] and it[3][0][4] == ("elem", it[3][0][2]):
+            # iterating a dict display {k: v(k) for k in K}: the keys are K (a key listed twice keeps one entry, which
+            # a dict / set built from the pairs does not see); only decided for dict and set results keyed by k
+            d = it[3][0]
+            inner_v = ("sub", d, el)            # the entry of the display under this key
+            if it[2] == ".items":
+                m = {("tget", el, 0): el, ("tget", el, 1): inner_v}
+                whole = _uses_whole(el, (key, val, conds), m)
+            elif it[2] == ".keys":
+                m, whole = {}, False
+            else:
+                m, whole = {el: inner_v}, True
+            keyed = kind in ("dict", "set") and (subst(key, m) == el if kind == "dict" else False)
+            if not whole and keyed:
+                c = ("comp", kind, lid, d[3]) + subst((key, val, conds), m)
+                continue
         if it[0] == "fn" and it[1] == "zip" and len(it[2]) == 2:
             a, b = it[2]
             if b[0] == "fn" and b[1] == "repeat" and len(b[2]) == 1:
@@ -1068,6 +1086,7 @@ class Summariser:
         self.self_name = None
         self.list_frames = []       # per active loop: bookkeeping of lists filled by the loop body
         self.field_prefix = ""      # "<field>." while a method of an owned collaborator object is inlined
+        self.consumer_state = None  # (names, fields) the consumer of this generator carries between yields
         self.on_yield = None        # consumer callback while a generator body is run for its `for` loop / `with`
         self.loop_iters = {}        # loop id -> iterated term (for comprehensions over generators)
         args = fn.args
@@ -1454,6 +1473,11 @@ class Summariser:
     def assigned_names(self, body):
         names, fields = set(), set()
         for n in ast.walk(ast.Module(body=body, type_ignores=[])):
+            if isinstance(n, ast.Yield) and self.consumer_state is not None:
+                # the consumer of this generator runs here: what it carries from one yield to the next is carried
+                # by the generator's loops
+                names |= {"^" + x for x in self.consumer_state[0]}
+                fields |= self.consumer_state[1]
             if isinstance(n, ast.Name) and isinstance(n.ctx, ast.Store):
                 names.add(n.id)
             elif isinstance(n, ast.Attribute) and isinstance(n.ctx, ast.Store) and self.is_self(n.value):
@@ -1755,8 +1779,10 @@ class Summariser:
             return False
         names, fields = self.assigned_names(st.body)
         targets = {n.id for n in ast.walk(st.target) if isinstance(n, ast.Name)}
-        if fields or self.called_self_methods(st.body) or ((names - targets) & set(self.env)):
-            return False                # loop-carried consumer state: the generator's loops would not see it
+        carried = (names - targets) & set(self.env)
+        cfields = fields | self.called_self_methods(st.body)
+        if self.on_yield is not None and (carried or cfields):
+            return False                # a generator consuming a generator while carrying state
 
         def consumer(val, gen, yst):
             self.bind_target(st.target, val)
@@ -1765,8 +1791,9 @@ class Summariser:
                 raise Unsupported(f"terminating loop body at {self.module.path}:{st.lineno}")
             return ev
         if genobj is not None:
-            return self.run_generator(genobj[0], events, consumer, params=dict(genobj[1])) is not None
-        return self.run_generator(st.iter, events, consumer) is not None
+            return self.run_generator(genobj[0], events, consumer, params=dict(genobj[1]),
+                                      carried=carried, cfields=cfields) is not None
+        return self.run_generator(st.iter, events, consumer, carried=carried, cfields=cfields) is not None
 
     @staticmethod
     def _display_items(it, literal_list=False):
@@ -2327,6 +2354,11 @@ class Summariser:
                     all(k in recv[2][1:] for k, _ in kwargs):
                 new = dict(kwargs)
                 return ("tuple", tuple(new.get(n, v) for n, v in zip(recv[2][1:], recv[1])), recv[2])
+            if recv[0] == "field0" and self.cls is not None and "." not in recv[1] and not self.field_prefix and \
+                    self.fields.get(recv[1], recv) == recv and self._owned_class(recv[1]) is None and \
+                    not self._is_property(recv[1]):
+                # a method of the object held in a field, reached through an expression that evaluates to it
+                return self._field_method_call(recv[1], f.attr, args, kwargs, events, e)
             res = ("res", self.site(e), "." + f.attr, (recv,) + args, kwargs)
             if f.attr in MUTATORS:
                 events.append(Mut(recv, f.attr, args, kwargs, res, line))
@@ -2335,6 +2367,8 @@ class Summariser:
                 events.append(Call("method", f.attr, recv, args, kwargs, res, line))
             if f.attr == "copy" and not args:
                 return ("new", self.site(e), "copy", (recv,))
+            if self.fluent(recv, f.attr):
+                return recv
             return res
         # call of a call result, subscript, lambda ...
         recv = self._expr(f, events)
@@ -2431,7 +2465,7 @@ class Summariser:
                 params[kw.arg] = self._expr_const(dflt, _defaults_of)
         return params
 
-    def run_generator(self, call, events, consumer, split_at=None, stop=None, params=None):
+    def run_generator(self, call, events, consumer, split_at=None, stop=None, params=None, carried=(), cfields=()):
         """Run the body of the generator function called by `call`; at every `yield`, `consumer(value)`
         (which returns the consumer's events) runs in this summariser, inside the generator's loops and
         branch facts.  Returns (sub summariser, Inlined event) or None if `call` is not such a call."""
@@ -2471,12 +2505,20 @@ class Summariser:
             saved = (self.loops, self.facts, self.loop_marks)
             self.loops, self.facts, self.loop_marks = gen.loops, list(gen.facts), []
             self.fields = gen.fields
+            for n in carried:
+                self.env[n] = gen.env["^" + n]
             try:
                 gen_events.extend(consumer(val, gen, st))
             finally:
                 gen.fields = self.fields
+                for n in carried:
+                    gen.env["^" + n] = self.env[n]
                 self.loops, self.facts, self.loop_marks = saved
         sub.on_yield = on_yield
+        if carried or cfields:
+            sub.consumer_state = (set(carried), set(cfields))
+            for n in carried:
+                sub.env["^" + n] = self.env[n]
         if split_at is not None:
             # a context manager: the statements after its single top-level yield run only if the block ended normally
             i = fn.body.index(split_at(fn))
@@ -2487,6 +2529,8 @@ class Summariser:
         else:
             ev, term, ret = sub.block(fn.body)
         self.fields = sub.exit_fields(term)
+        for n in carried:
+            self.env[n] = sub.env["^" + n]
         inl = Inlined(f"{c.name}.{fn.name}" if c is not None else f"{module.name}.{fn.name}", ev, call.lineno, c, fn,
                       dict(params), ("const", None))
         events.append(inl)
@@ -2693,7 +2737,57 @@ class Summariser:
         events.append(Call(f"self.{fld}", meth, recv, args, kwargs, res, line))
         if meth == "copy" and not args:
             return ("new", self.site(e), "copy", (recv,))
+        if self.fluent(recv, meth):
+            return recv                 # `self.part.update(v).get()`: the method hands back its receiver
         return res
+
+    def class_of(self, t, depth=0):
+        """The package class an object term is an instance of, when the code itself constructs it (directly, as
+        a copy of such an object, or in the constructor for a field that is not reassigned); else None."""
+        if depth > 4 or not isinstance(t, tuple) or not t:
+            return None
+        if t == ("self",):
+            return self.cls
+        if t[0] == "new" and t[2] in ("deepcopy", "copy") and len(t[3]) == 1:
+            return self.class_of(t[3][0], depth + 1)
+        if t[0] == "new" and isinstance(t[2], str) and "." in t[2] and not t[2].startswith("exc:"):
+            try:
+                return self.prog.cls(t[2])
+            except (KeyError, Unsupported):
+                return None
+        if t[0] == "gate":
+            a, b = self.class_of(t[2], depth + 1), self.class_of(t[3], depth + 1)
+            return a if a is b else None
+        if t[0] == "field0" and self.cls is not None and "." not in t[1] and not self.field_prefix:
+            c, init = self.prog.find_method(self.cls, "__init__")
+            if init is None or init in self.fnstack:
+                return None
+            key = (self._root_key(), t[1])
+            cache = self.prog.field_classes
+            if key not in cache:
+                cache[key] = None
+                try:
+                    v = self.prog.summarise(self.cls, "__init__").fields.get(t[1])
+                except Unsupported:
+                    v = None
+                if v is not None and v[0] != "field0":
+                    cache[key] = self.class_of(v, depth + 1)
+            return cache[key]
+        return None
+
+    def fluent(self, recv, meth):
+        """Does this method call hand back its receiver (`return self` on every path of the method of the
+        receiver's known class)?"""
+        K = self.class_of(recv)
+        if K is None:
+            return False
+        c, m = self.prog.find_method(K, meth)
+        if m is None or user_decorators(m) or not m.args.args:
+            return False
+        me = m.args.args[0].arg
+        rets = [n for n in _own_nodes(m.body) if isinstance(n, ast.Return)]
+        return bool(rets) and isinstance(m.body[-1], ast.Return) and \
+            all(isinstance(r.value, ast.Name) and r.value.id == me for r in rets)
 
     def _owned_class(self, fld):
         """The private collaborator class whose fresh instance the constructor puts into this field, else None."""
@@ -2822,6 +2916,14 @@ class Summariser:
             got = self._record_method(obj, meth, args, kwargs, events, e)
             if got is not None:
                 return got
+            if obj[0] == "field0" and self.cls is not None and self.fields.get(obj[1], obj) == obj and "." not in obj[1]:
+                # `call = self.part.method; call(x)` is `self.part.method(x)`
+                K = self._owned_class(obj[1])
+                if K is not None:
+                    c, m = self.prog.find_method(K, meth)
+                    if m is not None:
+                        return self._inline_owned(K, obj[1], c, m, tuple(args), dict(kwargs), events, e)
+                return self._field_method_call(obj[1], meth, tuple(args), kwargs, events, e)
             res = ("res", self.site(e), "." + meth, (obj,) + tuple(args), kwargs)
             if meth in MUTATORS:
                 events.append(Mut(obj, meth, tuple(args), kwargs, res, e.lineno))
